@@ -131,15 +131,18 @@ def run_probe(arg):
     from quantem.diffractive_imaging.probe_models import ProbePixelated
     out = []
     k = case["k"]
-    tag = f"probe case={idx} modes={case['modes']}"
+    tag = f"probe case={idx} modes={case['modes']} unit={((1.0, 2.0 ** -22, 2.0 ** 11, 2.0 ** -10)[(idx // 3) % 4]):g}"
 
     def bad(key, msg):
         out.append((key, f"{tag}: {msg}"))
     try:
-        modes = np.array([[complex(z[0], z[1]) for z in m] for m in case["modes"]], dtype=np.complex64)
+        # orthogonality, the order and the weight fractions do not depend on the unit of the probe amplitude: the same modes
+        # are also handed over scaled by an exact power of two (mode energies around 1e-12 and 1e8)
+        unit = (1.0, 2.0 ** -22, 2.0 ** 11, 2.0 ** -10)[(idx // 3) % 4]
+        modes = (np.array([[complex(z[0], z[1]) for z in m] for m in case["modes"]], dtype=np.complex128) * unit).astype(np.complex64)
         shape = (2, 2) if idx % 2 == 0 else ((1, 4) if idx % 4 == 1 else (4, 1))
         arr = modes.reshape((k,) + shape)
-        want = np.array(case["inten"], dtype=np.float64)
+        want = np.array(case["inten"], dtype=np.float64) * unit * unit
         pm = ProbePixelated.from_array(arr.copy(), initial_probe_weights=[float(x) for x in case["weights"]], rng=idx)
         t = torch.tensor(arr.copy())
         t0 = t.clone()
@@ -166,8 +169,9 @@ def run_probe(arg):
             if np.abs(np.sort(inten)[::-1] - want).max() > 1e-4 * want.max():
                 bad("C10:probe:intensities", f"{name}: mode intensities {np.round(np.sort(inten)[::-1], 4)}, the inputs carry {want}")
         # requested weights and mean diffraction intensity
-        mean_i = float(case["mean"])
-        tgt = np.array([t_[0] / t_[1] for t_ in case["target"]], dtype=np.float64)
+        mscale = (1.0, 1e-12, 1e6)[(idx // 5) % 3]
+        mean_i = float(case["mean"]) * mscale
+        tgt = np.array([t_[0] / t_[1] for t_ in case["target"]], dtype=np.float64) * mscale
         pm2 = ProbePixelated.from_array(arr.copy(), initial_probe_weights=[float(x) for x in case["weights"]], rng=idx)
         pm2.set_initial_probe(shape, np.array([0.1, 0.1]), mean_i)
         pm3 = ProbePixelated.from_array(arr.copy(), initial_probe_weights=[float(x) for x in case["weights"]], rng=idx)
